@@ -1,8 +1,8 @@
 (** C19 -- Adj-RIB-In / Adj-RIB-Out and the version counters.
 
     Model: model/YRib.v (yabgp/core/protocol.py: update_rib_in_ipv4, update_rib_out_ipv4,
-    update_receive_verion, update_send_version, init_rib, the calls in _update_received and in
-    the REST send view).  Specification: spec/MapSpec.v (finite map, apply_update = withdrawals
+    update_receive_verion, update_send_version, init_rib, closeConnection, connectionLost, the
+    calls in _update_received and in the REST send view).  Specification: spec/MapSpec.v (finite map, apply_update = withdrawals
     then announcements, changes = new route | changed attributes | removal of a present route).
     All statements quantify over every state / every list of updates: no bound on the number of
     messages, on the prefixes or rules inside one message (duplicates allowed), or on the pool.
@@ -44,13 +44,50 @@ Theorem C19_rib_out_refines : forall us : list update,
 Proof. exact rib_out_refines. Qed.
 Print Assumptions C19_rib_out_refines.
 
-(** ** flush: both tables are empty after connectionLost (the counters of the dead object stay);
-    the next connection is a new object: empty tables, counters 0 *)
-Theorem C19_empty_after_drop : forall s,
-  rib_in (conn_lost s) = [] /\ rib_out (conn_lost s) = [] /\
-  recv_v (conn_lost s) = recv_v s /\ send_v (conn_lost s) = send_v s.
+(** ** flush: both tables are empty after connectionLost (the counters of the dead object stay) --
+    for EITHER value of the object's `disconnected` flag, i.e. whether the peer dropped the session
+    (flag False) or yabgp closed it itself (closeConnection set the flag: header error ->
+    NOTIFICATION -> close, hold timer expiry, manual stop, NOTIFICATION received) *)
+Theorem C19_empty_after_drop : forall c : conn,
+  rib_in (c_rib (connection_lost c)) = [] /\ rib_out (c_rib (connection_lost c)) = [] /\
+  recv_v (c_rib (connection_lost c)) = recv_v (c_rib c) /\
+  send_v (c_rib (connection_lost c)) = send_v (c_rib c) /\
+  c_disconnected (connection_lost c) = c_disconnected c.
 Proof. exact empty_after_drop. Qed.
 Print Assumptions C19_empty_after_drop.
+
+(** every history of events (received / sent UPDATEs, earlier drops and reconnections) followed by
+    a remote drop [ELost] or by a local close [EClose; ELost] ends with empty tables, and the two
+    kinds of drop leave the same tables and counters *)
+Theorem C19_empty_after_any_drop : forall (b : bool) (es : list event) (c : conn),
+  let remote := run b c (es ++ [ELost]) in
+  let loc := run b c (es ++ [EClose; ELost]) in
+  (rib_in (c_rib remote) = [] /\ rib_out (c_rib remote) = []) /\
+  (rib_in (c_rib loc) = [] /\ rib_out (c_rib loc) = []) /\
+  c_disconnected loc = true /\ c_rib loc = c_rib remote.
+Proof. exact empty_after_any_drop. Qed.
+Print Assumptions C19_empty_after_any_drop.
+
+(** closeConnection alone flushes nothing (the routes stay until the transport reports the loss) *)
+Theorem C19_close_keeps_tables : forall c : conn,
+  c_rib (close_connection c) = c_rib c /\ c_disconnected (close_connection c) = true.
+Proof. exact close_keeps_tables. Qed.
+Print Assumptions C19_close_keeps_tables.
+
+Example C19_drop_nonvacuous :
+  let a1 := mkAttrs 1 None None in
+  let es := [ERecv (mkUpdate a1 [10; 11] []); ESend (mkUpdate a1 [12] [])] in
+  let live := run true new_connection es in
+  let closed := run true new_connection (es ++ [EClose]) in
+  let loc := run true new_connection (es ++ [EClose; ELost]) in
+  let remote := run true new_connection (es ++ [ELost]) in
+  List.map fst (rib_in (c_rib live)) = [10; 11] /\ List.map fst (rib_out (c_rib live)) = [12] /\
+  c_disconnected live = false /\
+  c_rib closed = c_rib live /\ c_disconnected closed = true /\
+  rib_in (c_rib loc) = [] /\ rib_out (c_rib loc) = [] /\ c_disconnected loc = true /\
+  rib_in (c_rib remote) = [] /\ rib_out (c_rib remote) = [] /\ c_disconnected remote = false /\
+  v_ipv4 (recv_v (c_rib loc)) = 2 /\ v_ipv4 (send_v (c_rib loc)) = 1.
+Proof. vm_compute. repeat split. Qed.
 
 Theorem C19_new_connection_fresh : sx_rib new_conn = sx_rib rib0 /\ new_conn = rib0.
 Proof. exact new_conn_fresh. Qed.
@@ -125,6 +162,43 @@ Example C19_mp_nonvacuous :
   let s := fold_left (recv_step true) [ann; ann; wd] new_conn in
   v_flowspec (recv_v s) = 3 /\ List.map fst (fs_recv s) = [[(1, 11)]] /\
   v_ipv4 (recv_v s) = 0 /\ v_mpls_vpn (recv_v s) = 0.
+Proof. vm_compute. repeat split. Qed.
+
+(** one UPDATE may carry MP_REACH_NLRI and MP_UNREACH_NLRI together (same family: replace rule A
+    by rule B in one message; or two different families), next to IPv4 NLRI and withdrawals.  The
+    theorems above already say so ([mp_ops] = the routes of attribute 14 THEN those of attribute
+    15, for every shape of [u]); explicitly: whatever else the message carries, every route named
+    in its MP_UNREACH_NLRI is absent from the family's table afterwards *)
+Theorem C19_unreach_applied_received : forall b f s u m15 r, f <> SrPolicy ->
+  a_unreach (u_attr u) = Some m15 -> fam_of m15 = Some f -> In r (reach_rules f m15) ->
+  lookup rkey_eqb (rule_key r) (fst (get_recv (recv_step b s u) f)) = None.
+Proof. exact recv_unreach_applied. Qed.
+Print Assumptions C19_unreach_applied_received.
+
+Theorem C19_unreach_applied_sent : forall f s u m15 r,
+  a_unreach (u_attr u) = Some m15 -> fam_of m15 = Some f -> In r (reach_rules f m15) ->
+  lookup rkey_eqb (rule_key r) (fst (get_send (send_step s u) f)) = None.
+Proof. exact send_unreach_applied. Qed.
+Print Assumptions C19_unreach_applied_sent.
+
+(** replace rule A by rule B in one message (flowspec), with an IPv4 announcement and an IPv4
+    withdrawal in the same message; then withdraw A again: nothing moves *)
+Example C19_replace_in_one_update_nonvacuous :
+  let rA := [(1, 10)] in let rB := [(1, 11)] in
+  let annA := mkUpdate (mkAttrs 5 (Some (mkMp 1 133 0 [rA])) None) [] [] in
+  let repl := mkUpdate (mkAttrs 5 (Some (mkMp 1 133 0 [rB])) (Some (mkMp 1 133 0 [rA]))) [20] [21] in
+  let wdA := mkUpdate (mkAttrs 0 None (Some (mkMp 1 133 0 [rA]))) [] [] in
+  let cross := mkUpdate (mkAttrs 5 (Some (mkMp 1 128 0 [rA])) (Some (mkMp 1 133 0 [rB]))) [] [] in
+  let s1 := fold_left (recv_step true) [annA; repl] new_conn in
+  let s2 := recv_step true s1 wdA in
+  let s3 := recv_step true s2 cross in
+  let t1 := fold_left send_step [annA; repl] new_conn in
+  v_flowspec (recv_v s1) = 3 /\ List.map fst (fs_recv s1) = [rB] /\
+  v_ipv4 (recv_v s1) = 1 /\ List.map fst (rib_in s1) = [20] /\
+  v_flowspec (recv_v s2) = 3 /\ List.map fst (fs_recv s2) = [rB] /\
+  v_flowspec (recv_v s3) = 4 /\ fs_recv s3 = [] /\ v_mpls_vpn (recv_v s3) = 1 /\
+  List.map fst (vpn_recv s3) = [rA] /\
+  v_flowspec (send_v t1) = 3 /\ List.map fst (fs_send t1) = [rB] /\ v_ipv4 (send_v t1) = 1.
 Proof. vm_compute. repeat split. Qed.
 
 (** "never otherwise": a received UPDATE moves nothing on the send side and vice versa *)
